@@ -230,7 +230,7 @@ impl Property for C17 {
     type Case = Case;
     const ID: &'static str = "C17";
     const RULE: &'static str = "generated address lists (0..3 IPv6 [::1]:p and 0..3 IPv4 127.0.0.x:p in generated resolver order) with a behaviour per address {accept, refuse (bound, not listening), black hole (backlog-0 listener with its \
-queue full), late accept (black hole that starts accepting after 300 ms)}, connect timeout {600, 900, 1800} ms and overall deadline {none, expired, 100 ms, 500 ms, 2 s}; real sockets; oracle = event simulation of the described race (IPv6 first, alternating, 200 ms stagger): success iff an accepting address is reached, the \
+queue full), late accept (black hole that starts accepting after 300 ms)}, connect timeout {100 (below the stagger; without deadline), 600, 900, 1800} ms and overall deadline {none, expired, 100 ms, 500 ms, 2 s}; real sockets; oracle = event simulation of the described race (IPv6 first, alternating, 200 ms stagger): success iff an accepting address is reached, the \
 winner accepts (and is the only acceptor when there is one), error when none accepts, firm lower bound 200 ms per black hole before the first acceptor, upper bound simulated time + 300 ms re-measured up to 3 times. thorough enumerates all lists with <= 2 \
 addresses per family. non-trivial = >= 2 addresses with >= 2 different behaviours; distinct by case";
 
